@@ -4,6 +4,7 @@
 -/
 import PV.Model.Rekey
 import PV.Generated.C11
+import PV.Model.RunLoop
 namespace PV.Props.C10
 open PV.Rekey
 
@@ -307,6 +308,25 @@ packet that has passed the gate; the step-level proof for every interleaving is 
 the variant without the lock has the witness `send_gate_unlocked_clear_witness`. -/
 theorem self_initiated_rekey_closes_gate_under_lock :
     Generated.C11.allClearsUnderLock = true ∧ Generated.C11.kexInitClearsBeforeWrite = true := by decide
+
+/-- **A re-exchange does not touch who is authenticated.**  In the run-loop model (tied to `Transport.run` by the C09 and
+C12 checks) `_parse_newkeys` leaves the authentication flag alone and replaces the auth handler only when there is
+none yet (a server's first NEWKEYS); and in the tree under test the assignment to `auth_handler` in `_parse_newkeys`
+is guarded by `auth_handler is None` (AST, read on every run).  So new channels and global requests are judged
+after a re-exchange exactly as before it. -/
+theorem rekey_keeps_authentication (s : PV.RunLoop.St) (x : PV.RunLoop.Ext) :
+    (PV.RunLoop.parseNewkeys s x).authenticated = s.authenticated ∧
+      (s.authH ≠ .none → (PV.RunLoop.parseNewkeys s x).authH = s.authH) ∧
+      Generated.C11.newkeysKeepsAuthHandler = true := by
+  refine ⟨?_, ?_, by decide⟩
+  · unfold PV.RunLoop.parseNewkeys
+    by_cases hk : s.haveK = true <;> by_cases a : s.agreedStrict = true <;>
+      by_cases b : (s.server = true ∧ s.authH = .none) <;> by_cases c : x.needRekey = true <;>
+      simp [hk, a, b, c, PV.RunLoop.St.fail]
+  · intro hne
+    unfold PV.RunLoop.parseNewkeys
+    by_cases hk : s.haveK = true <;> by_cases a : s.agreedStrict = true <;> by_cases c : x.needRekey = true <;>
+      simp [hk, a, c, hne, PV.RunLoop.St.fail]
 
 /-! ## non-vacuity: a scaled-down packetizer through two complete rekeys and an ignoring peer -/
 
